@@ -164,8 +164,14 @@ def _build_driver(libd, cfg, dom, variant="asan", extra_defs=()):
 
 # ------------------------------------------------------------------ model side
 def ensure_models(dom):
-    """make the extracted model driver of one domain (no-op when up to date)"""
-    r = sh(["make", "-s", "-C", VERIF, "ocaml/mdrv_" + dom], timeout=7200)
+    return _ensure_models(dom)
+
+
+def _ensure_models(dom):
+    """make the extracted model driver of one domain (no-op when up to date); serialised per
+    domain: several checks of one domain may run at the same time"""
+    with _Lock("mdrv-" + dom):
+        r = sh(["make", "-s", "-C", VERIF, "ocaml/mdrv_" + dom], timeout=7200)
     if r.returncode != 0:
         raise Infra("model build failed:\n" + r.stdout[-3000:])
     return os.path.join(VERIF, "ocaml", "mdrv_" + dom)
